@@ -180,7 +180,50 @@ func TestVerif_C04_LeaseSchedules(t *testing.T) {
 				}
 				m.steps = []string{sc.name, fmt.Sprintf("tx=%v", tx), strings.Join(outs, "; "), "schedule: " + sched.String()}
 				v.WaitQuiet(10*time.Millisecond, time.Second)
-				c04Oracle(v, m, r, caseID, "after concurrent leased read / revoke", nil)
+				// Known window of the unchanged code (F59, the C04 view of F31): UseToken re-reads the entry
+				// under the per-token lock, the revocation - which cannot take that lock, lookups made under
+				// it re-enter the revocation - marks and removes the token, then UseToken stores the
+				// decremented entry again. A non-expiring token needs no lease and is a credential again.
+				// Signature: the reader read the id record at least twice (look-up and the re-read under the
+				// lock), the last of these reads precedes the revoker's mark, and the reader's write of the
+				// record follows the revoker's delete of it.
+				var classify func(kind string, tk *c04Tok) string
+				if sc.reader == "limited" {
+					mark, del := -1, -1
+					gets, lastGet, put := map[string]int{}, map[string]int{}, map[string]int{}
+					for i, st := range sched.Steps {
+						if st.After || !strings.Contains(st.Key, "sys/token/id/") {
+							continue
+						}
+						_, wrote := put[st.Tag]
+						switch {
+						case st.Tag != "rev" && st.Op == "get" && !wrote:
+							gets[st.Tag]++
+							lastGet[st.Tag] = i
+						case st.Tag == "rev" && st.Op == "put" && mark < 0:
+							mark = i
+						case st.Tag == "rev" && st.Op == "delete":
+							del = i
+						case st.Tag != "rev" && st.Op == "put" && del >= 0 && !wrote:
+							put[st.Tag] = i
+						}
+					}
+					window := false
+					for tag, p := range put {
+						if gets[tag] >= 2 && mark >= 0 && lastGet[tag] < mark && del > mark && p > del {
+							window = true
+						}
+					}
+					if window {
+						classify = func(kind string, tk *c04Tok) string {
+							if kind == "dead-token-usable" && tk == parent {
+								return "C04-F59-use-count-write-after-revoker-delete-resurrects-non-expiring-token"
+							}
+							return ""
+						}
+					}
+				}
+				c04Oracle(v, m, r, caseID, "after concurrent leased read / revoke", classify)
 				return sched, r.NViolations() < 50
 			}
 			ex := &kit.Explorer{MaxPreempt: 2, MaxRuns: kit.N(40, 400)}
